@@ -313,7 +313,7 @@ class C16(Check):
         K = 1 if tier == 'quick' else 2
         specs = [S.VALUE(K), S.VALUE(K + 1, horizon=4), S.VALUE_BATCH(K), S.MAINT(K), S.MAINT(K + 1, n=1),
                  S.VALUE_NEST(K), S.VALUE_NEG(K), S.VALUE_NEG(K + 1, horizon=4), S.VALUE0(K), S.VALUE0(K + 1, horizon=4),
-                 S.VALUE_FRAC(K)]
+                 S.VALUE_FRAC(K), S.VALUE_FRAC(K + 1, horizon=3)]
         return _line_jobs(specs, ['value'], tier) + topo_jobs(['value'], tier)
 
 
